@@ -550,6 +550,27 @@ func configs2(r *ev.Run) {
 					if !bytes.Equal(w2.Pix, g2.Pix) {
 						r.Violation("config/RasterizeColliderSolid", "image differs from RasterizeSolid of the same collider solid", cfgCase{"RasterizeColliderSolid", sh.name, 16, "built-in", scale, fmt.Sprintf("subsamples=%d canvas=%s", sub, cv.name)})
 					}
+					// line drawings (RasterizeCollider): the built-in filter pads tiles by half the line width, which is given
+					// in pixels while everything else is in model units - so it is judged at scales below, at and above
+					// one pixel per unit (on the outline enlarged 100 times, to keep the images a few hundred pixels)
+					if cv.b == nil && sub <= 2 && scale == 3.1 {
+						big := model2d.MeshToCollider(mesh.Scale(100))
+						for _, sc2 := range []float64{0.1, 0.25, 0.7, 1, 1.3} {
+							for _, lw := range []float64{0, 3, 0.5} {
+								r.Eval(1)
+								rl := &model2d.Rasterizer{Scale: sc2, Subsamples: sub, LineWidth: lw}
+								width := lw
+								if width == 0 {
+									width = model2d.RasterizerDefaultLineWidth
+								}
+								wl := rl.RasterizeSolid(model2d.NewColliderSolidHollow(big, 0.5*width/sc2))
+								gl := rl.RasterizeCollider(big)
+								if !bytes.Equal(wl.Pix, gl.Pix) || wl.Rect != gl.Rect {
+									r.Violation("config/RasterizeCollider", "line drawing differs from the unfiltered rasterisation of the outline thickened by half the line width", cfgCase{"RasterizeCollider", sh.name, 16, "built-in", sc2, fmt.Sprintf("subsamples=%d line width=%g", sub, lw)})
+								}
+							}
+						}
+					}
 				}
 			}
 		}
